@@ -297,23 +297,17 @@ func (t *Thread) processIncomingInterest(packet *defn.Pkt) {
 	// Update PIT entry expiration timer
 	table.UpdateExpirationTimer(pitEntry)
 
-	// If NextHopFaceId set, forward to that face (if it exists) or drop
+	// If NextHopFaceId set, forward to that face (if it exists) or drop.
+	// The chosen face goes through the outgoing Interest pipeline like a FIB
+	// next hop: not back out of the point-to-point face the Interest came in
+	// on, /localhost scope, hop limit, an out-record and our own PIT token
 	if packet.NextHopFaceID != nil {
-		if nextHopFace := dispatch.GetFace(*packet.NextHopFaceID); nextHopFace != nil {
-			if nextHopFace.Scope() == defn.NonLocal && len(interest.NameV) > 0 &&
-				bytes.Equal(interest.NameV[0].Val, LOCALHOST) {
-				core.LogWarn(t, "Interest ", packet.Name, " cannot be sent to non-local FaceID=", *packet.NextHopFaceID, " since violates /localhost scope - DROP")
-				return
-			}
-			core.LogTrace(t, "NextHopFaceId is set for Interest ", packet.Name, " - dispatching directly to face")
-			dispatch.GetFace(*packet.NextHopFaceID).SendPacket(dispatch.OutPkt{
-				Pkt:      packet,
-				PitToken: packet.PitToken, // TODO: ??
-				InFace:   packet.IncomingFaceID,
-			})
-		} else {
+		if dispatch.GetFace(*packet.NextHopFaceID) == nil {
 			core.LogInfo(t, "Non-existent face specified in NextHopFaceId for Interest ", packet.Name, " - DROP")
+			return
 		}
+		core.LogTrace(t, "NextHopFaceId is set for Interest ", packet.Name, " - dispatching directly to face")
+		t.processOutgoingInterest(packet, pitEntry, *packet.NextHopFaceID, incomingFace.FaceID())
 		return
 	}
 
